@@ -72,7 +72,7 @@ def configs(tier):
     out = []
     E = 3 if tier == 'quick' else 4
     specs = ['SIS', 'SIR', 'SIRS', 'SEIR', 'compete'] if tier == 'quick' else list(SPECS)
-    ugl = ['K2', 'P3', 'K3'] if tier == 'quick' else list(graphs.G3)
+    ugl = ['K2', 'K2+K1', 'P3', 'K3'] if tier == 'quick' else list(graphs.G3)
     dgl = DIGRAPHS_Q if tier == 'quick' else list(graphs.digraphs(2)) + list(graphs.digraphs(3))
     for spec in specs:
         for g in ugl + dgl:
@@ -132,7 +132,9 @@ def build(cfg):
             w = eng.real('w_%s_%s' % (u, v), lo=0, lo_strict=True)
             r.ew[(u, v)] = w
             if not r.G.is_directed():
-                r.ew[(v, u)] = w
+                # a weight label is an attribute of the undirected edge; a rate FUNCTION of (source, target) may depend on the
+                # direction (e.g. on the source's infectiousness), so the two orientations get independent symbols
+                r.ew[(v, u)] = w if mode == 'weight_label' else eng.real('w_%s_%s' % (v, u), lo=0, lo_strict=True)
             if mode == 'weight_label':
                 r.G.edges[u, v]['ewl'] = w
     H = nx.DiGraph()
@@ -258,11 +260,11 @@ def post(cfg, records, eng):
     for (u, v) in G.edges():
         ew[(u, v)] = Sym(z3.Real('w_%s_%s' % (u, v)))
         if not G.is_directed():
-            ew[(v, u)] = ew[(u, v)]
+            ew[(v, u)] = ew[(u, v)] if cfg.get('mode') == 'weight_label' else Sym(z3.Real('w_%s_%s' % (v, u)))
     chain = chain_of(cfg, G, rates, nw, ew)
     base = [lift(x) > 0 for x in rates.values()]
     if cfg.get('mode', 'plain') != 'plain':
-        base += [lift(x) > 0 for x in nw.values()] + [z3.Real('w_%s_%s' % (u, v)) > 0 for (u, v) in G.edges()]
+        base += [lift(x) > 0 for x in nw.values()] + [z3.Real('w_%s_%s' % (u, v)) > 0 for (u, v) in G.edges()] + [z3.Real('w_%s_%s' % (v, u)) > 0 for (u, v) in G.edges()]
     nodes = list(G.nodes())
     status0 = {n: cfg['ic'][i] for i, n in enumerate(nodes)}
     return gillaw.analyse(records, base, chain, status0, event_of_step)
